@@ -261,7 +261,16 @@ func (e *Exec) atTarget(fr *frame, st *State, h *hctx, fn *ssa.Function, args []
 		fs = h.frame
 		fs.snapAlloc = st.Alloc
 	} else {
-		fs = &frameSpec{all: true, snapAlloc: st.Alloc}
+		fs = &frameSpec{all: true, snapAlloc: st.Alloc, deny: h.frame.deny}
+	}
+	if h.con.NoSafety {
+		e.noSafety++
+		defer func() { e.noSafety-- }()
+	}
+	if h.con.InlineDepth > 0 {
+		save := e.MaxInline
+		e.MaxInline = len(e.frames) + h.con.InlineDepth
+		defer func() { e.MaxInline = save }()
 	}
 	e.fstack = append(e.fstack, fs)
 	saveMP := e.mayPanic
@@ -457,6 +466,13 @@ func (e *Exec) verifIntrinsic(fr *frame, st *State, name string, fn *ssa.Functio
 		e.heapSort[vk] = vs
 		h.frame.locs = append(h.frame.locs, frameLoc{hk, args[0]}, frameLoc{vk, args[0]})
 		return unit
+	case "verif_preserves", "verif_preserves_obj":
+		h := e.curH()
+		pt := fn.Params[0].Type().Underlying().(*types.Pointer).Elem()
+		tmp := &frameSpec{}
+		e.addFrameLocs(tmp, args[0], pt)
+		h.frame.deny = append(h.frame.deny, tmp.locs...)
+		return unit
 	case "verif_modifies_obj":
 		h := e.curH()
 		h.hasMod = true
@@ -495,9 +511,14 @@ func (e *Exec) verifIntrinsic(fr *frame, st *State, name string, fn *ssa.Functio
 	case "verif_fresh":
 		snap := e.snapshotFor(fr)
 		return isFresh(args[0], snap.Alloc)
+	case "verif_fresh_map":
+		snap := e.snapshotFor(fr)
+		return isFresh(args[0], snap.Alloc)
 	case "verif_fresh_slice":
 		snap := e.snapshotFor(fr)
 		return smt.Or(isFresh(SArr(args[0]), snap.Alloc), smt.Eq(SCap(args[0]), smt.Const(64, 0)))
+	case "verif_eq":
+		return smt.Eq(args[0], args[1])
 	case "verif_same_array":
 		return smt.Eq(SArr(args[0]), SArr(args[1]))
 	case "verif_slice_at":
